@@ -34,6 +34,10 @@ type Scenario struct {
 	PCancel    int // percent of calls whose context is cancelled shortly after start
 	ResetAfter int // server resets the connection after this many requests (0 = never)
 	CloseEarly bool // Session.Close while callers are still waiting
+	PVeryLate  int  // percent answered only after ~5.5 driver timeouts
+	SecondWave bool // after the first wave wait ~4.6 timeouts, then send another wave (id reuse while very late answers are outstanding)
+	CoalesceMs int  // >0: long coalescing window (ms); cancellations then land between enqueue and flush
+	TimeoutLimit int // >0: set the deprecated gocql.TimeoutLimit for this run
 	Seed       uint64
 }
 
@@ -88,13 +92,16 @@ func Run(sc Scenario) Result {
 		switch {
 		case p < sc.PNever:
 			return
-		case p < sc.PNever+sc.PLate:
+		case p < sc.PNever+sc.PVeryLate:
+			lateWG.Add(1)
+			go func() { defer lateWG.Done(); time.Sleep(11*timeout/2 + d); send() }()
+		case p < sc.PNever+sc.PVeryLate+sc.PLate:
 			lateWG.Add(1)
 			go func() { defer lateWG.Done(); time.Sleep(timeout + 25*time.Millisecond + d); send() }()
-		case p < sc.PNever+sc.PLate+sc.PDelay:
+		case p < sc.PNever+sc.PVeryLate+sc.PLate+sc.PDelay:
 			lateWG.Add(1)
 			go func() { defer lateWG.Done(); time.Sleep(d); send() }()
-		case p < sc.PNever+sc.PLate+sc.PDelay+sc.PErr:
+		case p < sc.PNever+sc.PVeryLate+sc.PLate+sc.PDelay+sc.PErr:
 			op = memcluster.OpError
 			body = memcluster.ErrorBody(memcluster.ErrInvalid, fmt.Sprintf("tok=%d", tok), nil)
 			send()
@@ -106,6 +113,13 @@ func Run(sc Scenario) Result {
 	cfg.Timeout = timeout
 	if sc.Coalesce {
 		cfg.WriteCoalesceWaitTime = 100 * time.Microsecond
+	}
+	if sc.CoalesceMs > 0 {
+		cfg.WriteCoalesceWaitTime = time.Duration(sc.CoalesceMs) * time.Millisecond
+	}
+	if sc.TimeoutLimit > 0 {
+		gocql.TimeoutLimit = int64(sc.TimeoutLimit)
+		defer func() { gocql.TimeoutLimit = 0 }()
 	}
 	s, err := cfg.CreateSession()
 	if err != nil {
@@ -130,9 +144,13 @@ func Run(sc Scenario) Result {
 		for j := range plans[i] {
 			if rng.Intn(100) < sc.PCancel {
 				plans[i][j].cancelAfter = time.Duration(1+rng.Intn(4000)) * time.Microsecond
+				if sc.CoalesceMs > 0 {
+					plans[i][j].cancelAfter = time.Duration(200+rng.Intn(sc.CoalesceMs*800)) * time.Microsecond
+				}
 			}
 		}
 	}
+	launch := func() {
 	for i := 0; i < sc.Callers; i++ {
 		wg.Add(1)
 		go func(i int) {
@@ -160,6 +178,8 @@ func Run(sc Scenario) Result {
 			}
 		}(i)
 	}
+	}
+	launch()
 	if sc.CloseEarly {
 		time.Sleep(time.Duration(1+rng.Intn(20)) * time.Millisecond)
 		cdone := make(chan struct{})
@@ -178,6 +198,19 @@ func Run(sc Scenario) Result {
 	case <-time.After(20 * time.Second):
 		res.Fatal = "callers hang\n" + stacks()
 		return res
+	}
+	if sc.SecondWave && !sc.CloseEarly {
+		// ids of timed-out requests must stay reserved however long the answer takes: wait, then reuse ids
+		time.Sleep(23 * timeout / 5)
+		launch()
+		done2 := make(chan struct{})
+		go func() { wg.Wait(); close(done2) }()
+		select {
+		case <-done2:
+		case <-time.After(20 * time.Second):
+			res.Fatal = "callers hang (second wave)\n" + stacks()
+			return res
+		}
 	}
 	lateWG.Wait()
 	for _, l := range log.Snapshot() {
@@ -240,7 +273,28 @@ func Gen(r *vh.Rng, wide bool) Scenario {
 	case 4:
 		sc.PLate, sc.PCancel, sc.PDelay = 10, 30, 40
 	}
+	switch r.Intn(8) {
+	case 0: // very late answers + a second wave that re-uses ids (small id space)
+		sc.Proto = 2
+		sc.PNever, sc.PVeryLate, sc.PLate, sc.PDelay, sc.PErr, sc.PCancel = 10, 25, 0, 30, 0, 0
+		sc.SecondWave = true
+		sc.Callers = 20 + r.Intn(40)
+		sc.PerCaller = 2
+	case 1: // cancellations between enqueue and flush of the coalescer; answers are held back a little
+		sc.CoalesceMs = 4 + r.Intn(4)
+		sc.Coalesce = true
+		sc.PCancel = 60
+		sc.PDelay, sc.PLate, sc.PNever, sc.PErr = 100, 0, 0, 0
+		sc.Proto = 2
+		sc.Callers = 30 + r.Intn(60)
+		sc.PerCaller = 3
+	}
 	if wide {
+		if r.Intn(8) == 0 {
+			sc.TimeoutLimit = 1 + r.Intn(2)
+			sc.PNever = 30
+			sc.SecondWave = false
+		}
 		switch r.Intn(6) {
 		case 0:
 			sc.ResetAfter = 1 + r.Intn(20)
